@@ -128,7 +128,8 @@ Definition obs_field (c : cspec) (size : Z) (f : fspec) : list ob :=
     let M := Var 0%nat (8 * size) in
     let og :=
       if has (fs_get f) then
-        if is_untranslatable (cs_class c) (fs_get f) then [] else
+        if is_untranslatable (cs_class c) (fs_get f)
+        then [failed (lbl c f "O-get lost: the getter of this layout field is no longer translatable, no obligation can be generated")] else
         match gen_get c f M with
         | Some (rw, r) => [{| ob_label := lbl c f "O-get: getter reads the layout's bits"; ob_w := rw; ob_a := r;
                               ob_b := spec_get off bytes be (fs_lo f) (fs_w f) (fs_shift f) M |}]
@@ -137,7 +138,8 @@ Definition obs_field (c : cspec) (size : Z) (f : fspec) : list ob :=
       else [] in
     let os :=
       if has (fs_set f) then
-        if is_untranslatable (cs_class c) (fs_set f) then [] else
+        if is_untranslatable (cs_class c) (fs_set f)
+        then [failed (lbl c f "O-set lost: the setter of this layout field is no longer translatable, no obligation can be generated")] else
         match gen_set c f with
         | Some m' =>
           ([{| ob_label := lbl c f "O-set: setter writes the layout's bits and nothing else"; ob_w := 8 * size; ob_a := m';
